@@ -15,9 +15,9 @@ def textCovered : List String :=
     | none => false)).map (·.1)
 
 theorem text_covered_types :
-    textCovered = ["AFSDB", "AVC", "CDNSKEY", "CDS", "CNAME", "DHCID", "DLV", "DNAME", "DNSKEY", "DS", "EID", "GID", "HINFO", "ISDN", "KEY", "KX", "LP", "MB", "MD", "MF", "MG",
+    textCovered = ["AFSDB", "AVC", "CAA", "CDNSKEY", "CDS", "CNAME", "DHCID", "DLV", "DNAME", "DNSKEY", "DS", "EID", "GID", "HINFO", "ISDN", "KEY", "KX", "LP", "MB", "MD", "MF", "MG",
       "MINFO", "MR", "MX", "NIMLOC", "NINFO", "NS", "NSAPPTR", "OPENPGPKEY", "PTR", "PX", "RESINFO", "RKEY", "RP", "RT", "SOA", "SPF", "SRV",
-      "SSHFP", "TA", "TALINK", "TLSA", "TXT", "UID", "UINFO", "X25", "ZONEMD"] := by
+      "SSHFP", "TA", "TALINK", "TLSA", "TXT", "UID", "UINFO", "URI", "X25", "ZONEMD"] := by
   decide
 
 theorem text_covered_all :
@@ -44,10 +44,13 @@ theorem fits_exist (P Q : List TStep) (h : matchPlans P Q = true) : ∃ vals val
     · exact ⟨.n 0, by simp [FieldWF]⟩
     · exact ⟨.n 0, by simp [FieldWF]⟩
     · exact ⟨.s (presentOf []), ⟨[], by decide, rfl⟩⟩
+    · rename_i u; cases u <;> simp only [kindEq, Bool.false_eq_true] at hk
+      exact ⟨.s [65], ⟨by simp, by decide⟩⟩
   fun_induction matchPlans P Q
   · exact ⟨_, _, Fits.txt [] (by simp)⟩
   · exact ⟨_, _, Fits.pair [] [] (by simp) (by simp)⟩
   · exact ⟨_, _, Fits.first [] (by simp)⟩
+  · exact ⟨_, _, Fits.octet []⟩
   · exact ⟨_, _, Fits.rest _ _ [65] ⟨by simp, by decide⟩⟩
   · exact ⟨_, _, Fits.tok _ [65] ⟨by simp, by decide⟩⟩
   · rename_i p q _
